@@ -1,0 +1,48 @@
+//go:build verif
+
+package transp
+
+import (
+	"github.com/paulsonkoly/chess-3/board"
+	"github.com/paulsonkoly/chess-3/move"
+
+	. "github.com/paulsonkoly/chess-3/chess"
+)
+
+// Verification hooks (build tag verif). Add-only.
+
+// VerifMatch64 exposes the lane matching helper.
+func VerifMatch64(w uint64, key uint16) (int, bool) { return match64(w, partialKey(key)) }
+
+// VerifBucketIx exposes the bucket index computation.
+func (t *Table) VerifBucketIx(h board.Hash) int { return t.bucketIx(h) }
+
+// VerifLen is the number of buckets.
+func (t *Table) VerifLen() int { return len(t.data) }
+
+// VerifEntry is the exported view of an entry.
+type VerifEntry struct {
+	Move  move.Move
+	Value Score
+	Depth Depth
+	Type  Type
+	Gen   Gen
+}
+
+// VerifBucket returns the raw content of bucket ix.
+func (t *Table) VerifBucket(ix int) (pKeys uint64, es [4]VerifEntry) {
+	b := &t.data[ix]
+	for i := range b.entries {
+		e := b.entries[i]
+		es[i] = VerifEntry{Move: e.Move, Value: e.value, Depth: e.Depth(), Type: e.Type(), Gen: e.gen}
+	}
+	return b.pKeys, es
+}
+
+// VerifRaw exposes the stored (not ply corrected) value and generation of an entry.
+func (e *entry) VerifRaw() (Score, Gen) { return e.value, e.gen }
+
+// VerifConsts exposes layout constants.
+func VerifConsts() (entryCnt, bucketBytes, keyBits int) {
+	return bucketEntryCnt, bucketSize, partialKeyBits
+}
